@@ -389,6 +389,18 @@ def percentage_as_number(percent_str):
     """
     return float(percent_str.strip()[:-1]) * 0.01
 
+def _norm(value):
+    """
+    Euclidean (Frobenius) norm of a number or array.
+
+    np.linalg.norm squares its argument even when it is a plain number, which
+    overflows for magnitudes above ~1e154 and underflows to zero below ~1e-162;
+    numbers are therefore measured with abs().
+    """
+    if isinstance(value, Number):
+        return abs(value)
+    return np.linalg.norm(value)
+
 def within_tolerance(x, y, tolerance):
     """
     Check that |x-y| <= tolerance with appropriate norm.
@@ -449,11 +461,11 @@ def within_tolerance(x, y, tolerance):
     # When used within graders, tolerance has already been
     # validated as a Number or PercentageString
     if isinstance(tolerance, str):
-        tolerance = np.linalg.norm(x) * percentage_as_number(tolerance)
+        tolerance = _norm(x) * percentage_as_number(tolerance)
 
     difference = x - y
 
-    return np.linalg.norm(difference) <= tolerance
+    return _norm(difference) <= tolerance
 
 def is_nearly_zero(x, tolerance, reference=None):
     """
@@ -499,6 +511,6 @@ def is_nearly_zero(x, tolerance, reference=None):
         if reference is None:
             raise ValueError('When tolerance is a percentage, reference must '
                 'not be None.')
-        tolerance = np.linalg.norm(reference) * percentage_as_number(tolerance)
+        tolerance = _norm(reference) * percentage_as_number(tolerance)
 
-    return np.linalg.norm(x) <= tolerance
+    return _norm(x) <= tolerance
